@@ -105,7 +105,7 @@ func (p *TxProcessor) Process(header *types.Header, txs types.Transactions) (uin
 			return gasUsed, ErrTxGasUsedNotEqual
 		}
 		gasUsed = gasUsed + gas
-		fee := new(big.Int).Mul(new(big.Int).SetUint64(gas), tx.GasPrice())
+		fee := txFee(tx, gas)
 		totalGasFee.Add(totalGasFee, fee)
 	}
 	p.chargeForGas(totalGasFee, header.MinerAddress)
@@ -172,7 +172,7 @@ txsLoop:
 		selectedTxs = append(selectedTxs, tx)
 
 		gasUsed = gasUsed + gas
-		fee := new(big.Int).Mul(new(big.Int).SetUint64(gas), tx.GasPrice())
+		fee := txFee(tx, gas)
 		totalGasFee.Add(totalGasFee, fee)
 	}
 	p.chargeForGas(totalGasFee, header.MinerAddress)
@@ -181,6 +181,21 @@ txsLoop:
 		log.Infof("Process %d transactions", len(selectedTxs))
 	}
 	return selectedTxs, invalidTxs, gasUsed
+}
+
+// txFee returns the fee which the miner earns from the gas payer of the transaction.
+// The gas used of a box transaction contains the gas of its sub transactions. But their own gas payers have paid for that gas at their own gas prices, and RunBoxTxs has given it to the miner. Only the rest was bought by the box's gas payer
+func txFee(tx *types.Transaction, gasUsed uint64) *big.Int {
+	if tx.Type() == params.BoxTx {
+		if box, err := types.GetBox(tx.Data()); err == nil {
+			for _, subTx := range box.SubTxList {
+				if subTx.GasUsed() <= gasUsed {
+					gasUsed -= subTx.GasUsed()
+				}
+			}
+		}
+	}
+	return new(big.Int).Mul(new(big.Int).SetUint64(gasUsed), tx.GasPrice())
 }
 
 // buyAndPayIntrinsicGas
